@@ -16,6 +16,36 @@ import traceback
 ROOT = os.path.dirname(os.path.dirname(os.path.abspath(__file__)))
 
 
+def replay(prop, tier, path):
+    """re-decide the obligation recorded in a replay file on the CURRENT tree: the check of its property is run again (same
+    tier, same seed; evidence and replay files go to a scratch directory), the obligation is looked up by name, and its
+    present verdict is printed together with the recorded failing input and the native replay on the real code.
+    exit 1 if the obligation is still refuted, 0 if it now holds, 2 if it is undecided / no longer generated."""
+    import subprocess
+    import tempfile
+    j = json.load(open(path if os.path.isabs(path) else os.path.join(os.environ.get("VERIF_OUT") or ROOT, path)))
+    print("recorded:", json.dumps({k: j.get(k) for k in ("property", "obligation", "function", "backend", "replayed_on_real_code")}, indent=1))
+    det = j.get("detail") or {}
+    for k in ("env", "counter_model", "native", "native_exception", "exception", "solver_output", "why"):
+        if k in det:
+            print(f"recorded {k}:", json.dumps(det[k], indent=1)[:3000])
+    with tempfile.TemporaryDirectory(prefix="verif_replay_") as tmp:
+        env = dict(os.environ, VERIF_OUT=tmp)
+        r = subprocess.run([sys.executable, "-m", "checks.run", prop, "--tier", tier], cwd=ROOT, env=env, capture_output=True, text=True)
+        ob_path = os.path.join(tmp, "evidence", f"{prop}.obligations.json")
+        if not os.path.exists(ob_path):
+            print("replay: the check did not complete:\n" + (r.stdout + r.stderr)[-2000:])
+            return 3
+        hits = [o for o in json.load(open(ob_path)) if o["name"] == j.get("obligation")]
+    if not hits:
+        print("replay: the obligation is no longer generated on the current tree (undecided)")
+        return 2
+    o = hits[0]
+    print("now:", o["status"], "backend:", o["backend"])
+    print(json.dumps(o.get("detail"), indent=1)[:4000])
+    return 1 if o["status"] == "REFUTED" else (0 if o["status"] == "PROVED" else 2)
+
+
 def main():
     ap = argparse.ArgumentParser()
     ap.add_argument("prop")
@@ -29,9 +59,7 @@ def main():
     seed = int(os.environ.get("VERIF_SEED", "0") or 0)
     prop = a.prop.upper()
     if a.replay:
-        j = json.load(open(a.replay if os.path.isabs(a.replay) else os.path.join(ROOT, a.replay)))
-        print(json.dumps(j, indent=1))
-        return 0
+        return replay(prop, tier, a.replay)
     from engine.report import Ledger
     from engine.runner import run_tasks
     try:
